@@ -87,12 +87,48 @@ fn same_length_other(s: &str) -> String {
 }
 
 impl C18 {
+    /// History dimension for the file legs: what this thread opened just before. Every other file case is preceded by an `open` of a file that
+    /// is rejected (truncated markup, a document of another shape), or of another, valid, library file.
+    fn earlier_open(&self, cx: &mut Cx, fmt: SerializationFormat) {
+        if (cx.n / 4) % 2 != 1 {
+            return;
+        }
+        let f = fmt_name(fmt);
+        let path = cx.tmp(&format!("c18-earlier.{}", f));
+        let kind = cx.rng.below(3);
+        let text = match kind {
+            0 => match f {
+                "json" => "{\"name\": \"earlier\", \"structs\": [ {\"name\": \"cut_short".to_string(),
+                _ => "name: earlier\nstructs:\n  - name: [unclosed\n    elems: {".to_string(),
+            },
+            1 => match f {
+                "json" => "[1, 2, 3, \"a list is not a library\"]".to_string(),
+                _ => "- 1\n- 2\n- a list is not a library\n".to_string(),
+            },
+            _ => fmt.to_string(&GdsLibrary::new("earlier_library")).unwrap_or_default(),
+        };
+        if std::fs::write(&path, &text).is_err() {
+            return;
+        }
+        let r = guard(|| fmt.open::<GdsLibrary>(&path).is_ok());
+        let _ = std::fs::remove_file(&path);
+        match (kind, r) {
+            (_, Err(c)) => cx.violation(&format!("earlier-open|{}|panic|{}|{}", f, c.site(), c.norm_msg()), json!({"panic": c.msg, "text": text})),
+            (2, Ok(true)) => cx.count("earlier_open_accepted"),
+            (2, Ok(false)) => cx.violation(&format!("earlier-open|{}|valid-file-rejected", f), json!({"text": text})),
+            (_, Ok(false)) => cx.count("earlier_open_rejected"),
+            (_, Ok(true)) => cx.violation(&format!("earlier-open|{}|malformed-file-accepted", f), json!({"text": text})),
+        }
+    }
     fn gds_value(&self, cx: &mut Cx, lib: &GdsLibrary, fmt: SerializationFormat, via_file: bool) {
         cx.eval();
         let f = fmt_name(fmt);
         let path = cx.tmp(&format!("c18.{}", f));
         // history dimension: 0 fresh path, 1 over a longer older file, 2 over a different file of exactly the same length
         let stale = cx.n % 3;
+        if via_file {
+            self.earlier_open(cx, fmt);
+        }
         if via_file && stale > 0 {
             cx.count(if stale == 1 { "saved_over_existing_longer_file" } else { "saved_over_existing_same_length_file" });
         }
@@ -135,6 +171,9 @@ impl C18 {
         let path = cx.tmp(&format!("c18lef.{}", f));
         // history dimension: 0 fresh path, 1 over a longer older file, 2 over a different file of exactly the same length
         let stale = cx.n % 3;
+        if via_file {
+            self.earlier_open(cx, fmt);
+        }
         if via_file && stale > 0 {
             cx.count(if stale == 1 { "saved_over_existing_longer_file" } else { "saved_over_existing_same_length_file" });
         }
